@@ -85,6 +85,13 @@ func runVote(ctx *action.Context, tx action.RawTx) (bool, action.Response) {
 		}
 	}
 
+	// the opinion indexes the tally: a delivered transaction may never have passed Validate
+	if err = vote.Opinion.Err(); err != nil {
+		return false, action.Response{
+			Log: gov.ErrInvalidVoteOpinion.Marshal(),
+		}
+	}
+
 	// Get Proposal from proposal ACTIVE store
 	pms := ctx.ProposalMasterStore
 	proposal, err := pms.Proposal.WithPrefixType(gov.ProposalStateActive).Get(vote.ProposalID)
